@@ -242,3 +242,22 @@ class SymSet(object):
             self.remove(x)
         except KeyError:
             pass
+
+
+def sym_powmod(base, power, modulus):
+    """cryptomath.powMod for proxies: 3-argument pow() never consults
+    __rpow__, so a symbolic exponent is concretised here (one path per
+    value) and a symbolic base uses square-and-multiply on terms"""
+    if isinstance(power, (SymInt, SymBool)):
+        power = int(power)
+    if isinstance(modulus, (SymInt, SymBool)):
+        modulus = int(modulus)
+    if isinstance(base, SymBool):
+        base = SymInt.lift(base)
+    if isinstance(base, SymInt):
+        if power < 0:
+            raise Unsupported("negative exponent with symbolic base")
+        return base.__pow__(power, modulus)
+    if power < 0:
+        return pow(pow(base, -1, modulus), -power, modulus)
+    return pow(base, power, modulus)
